@@ -43,6 +43,24 @@ Theorem C10_exp_position_independent : forall c c' ops a,
 Proof. exact exp_position_independent. Qed.
 Print Assumptions C10_exp_position_independent.
 
+(* capacity growth is invisible: insert growth steps of ANY size (k uninitialised rows appended to _agent_positions,
+   the view re-taken) at ANY points of ANY history - every observation of every operation stays the same, and so do
+   space.agents and every position in the final state: growth never changes the active prefix *)
+Theorem C10_exp_growth_invisible : forall c l,
+  g_run c (e_init c) l = e_run c (e_init c) (ops_of l).
+Proof. exact exp_growth_invisible. Qed.
+Print Assumptions C10_exp_growth_invisible.
+
+Theorem C10_exp_growth_view_invariant : forall c l a,
+  e_active (g_final c (e_init c) l) = e_active (e_final c (e_init c) (ops_of l)) /\
+  e_getpos (g_final c (e_init c) l) a = e_getpos (e_final c (e_init c) (ops_of l)) a.
+Proof. exact exp_growth_view_invariant. Qed.
+Print Assumptions C10_exp_growth_view_invariant.
+
+Theorem C10_exp_growth_keeps_prefix : forall s k, EInv s -> e_rows (grow s k) = e_rows s.
+Proof. exact grow_rows. Qed.
+Print Assumptions C10_exp_growth_keeps_prefix.
+
 (* space.agents is exactly the set of agents added and not removed, each once *)
 Theorem C10_exp_agents_exact : forall c ops a,
   NoDup (e_active (e_final c (e_init c) ops)) /\
@@ -338,6 +356,16 @@ Example C10_exp_independent_example :
   filter (e_names 4) ex_ops = [EAdd 4 [-20; 70]] /\
   e_getpos (e_final (ex_cfg 0) (e_init (ex_cfg 0)) ex_ops) 4 = Some [44; 6] /\
   e_getpos (e_final (ex_cfg 100) (e_init (ex_cfg 100)) (filter (e_names 4) ex_ops)) 4 = Some [44; 6].
+Proof. vm_compute. repeat split; reflexivity. Qed.
+
+(* growth steps of 7, 0 and 1 rows inserted into the capacity-0 history: same observations *)
+Example C10_exp_growth_example :
+  let l := GGrow 7 :: GOp (EAdd 1 [0; 16]) :: GOp (EAdd 2 [100; 16]) :: GGrow 0 :: GOp (ERadius [0; 16] 32)
+           :: GOp (ERemove 1) :: GGrow 1 :: GOp (EAdd 4 [-20; 70]) :: [] in
+  length (e_store (g_final (ex_cfg 0) (e_init (ex_cfg 0)) l)) = 8%nat /\
+  length (e_store (e_final (ex_cfg 0) (e_init (ex_cfg 0)) (ops_of l))) = 2%nat /\
+  g_run (ex_cfg 0) (e_init (ex_cfg 0)) l = e_run (ex_cfg 0) (e_init (ex_cfg 0)) (ops_of l) /\
+  e_getpos (g_final (ex_cfg 0) (e_init (ex_cfg 0)) l) 4 = Some [44; 6].
 Proof. vm_compute. repeat split; reflexivity. Qed.
 
 (* an accepted and a refused k-nearest outcome (agent 3 is nearer than agent 4) *)
